@@ -164,13 +164,11 @@ func (r *Runner) execWatch(o Op, h, h2 []byte) Reply {
 	case e := <-pc:
 		panic(e)
 	case <-time.After(WatchdogLimit):
+		// the call is stuck (its goroutine and this server are abandoned); the sequence ends here
 		fmt.Fprintf(r.w, "X hang\n")
 		r.w.Flush()
-		fmt.Fprintf(os.Stderr, "HANG in op %s\n", o.Sym())
-		fmt.Printf("[{\"index\":0,\"panic\":\"hang: %s did not return within %v\",\"nops\":%d}]\n", o.Proc, WatchdogLimit, r.nops)
-		os.Exit(3)
+		panic(fmt.Sprintf("hang: %s did not return within %v (op %s)", o.Proc, WatchdogLimit, o.Sym()))
 	}
-	return Reply{}
 }
 
 var WatchdogLimit = 20 * time.Second
